@@ -54,6 +54,33 @@ CLAIMED["C15"] = dict(
     technique="Lean 4 proof over hand-written model + big-stream differential correspondence",
     engine="HashMB", ref="5 C15")
 
+_AES_NOTE = ("Trusted: Lean kernel + standard axioms; Spec/{Aes,Gf128,Gcm,Xts,Cbc}.lean transcriptions (tested on "
+             "FIPS-197 / SP 800-38D / IEEE 1619 / SP 800-38A vectors); the equality 'assembly = specification' is "
+             "established per call by the differential harness (bounded by its generators) with OpenSSL as second "
+             "oracle, not by proof - the SIMD kernels are out of reach of a Lean model here.")
+CLAIMED["C02"] = dict(
+    text="Proof (Lean 4) of the laws of the SP 800-38D transcription the statement names: dec(enc) = plaintext for all "
+         "lengths/AAD/keys/12-byte IVs, same tag, 8/12-byte tags are prefixes of the 16-byte tag, exact output lengths. "
+         "Tie: per-call correspondence of the one-shot entry points of all four families, their _nt variants and the "
+         "public API with the Lean specification (in place / disjoint, random alignments, length classes, AAD sizes, "
+         "one AAD >= 2^29 bytes per run) and with OpenSSL. Found and fixed F17 (32-bit AAD bit length, ab52d70).",
+    note=_AES_NOTE, technique="Lean 4 proof of the specification laws + differential correspondence per family",
+    engine="AES", ref="5 C02")
+CLAIMED["C03"] = dict(
+    text="Proof (Lean 4): XTS decrypt(encrypt) = plaintext for every length >= 16 incl. ciphertext stealing; "
+         "expanded-key forms = raw-key forms (encrypt with both encryption schedules; decrypt with the FIPS-197 "
+         "equivalent-inverse-cipher schedule); length preserved. Tie: per-call correspondence of all 24 family "
+         "symbols + public API with Spec/Xts.lean and OpenSSL; lengths < 16 leave buffers untouched (monitor).",
+    note=_AES_NOTE, technique="Lean 4 proof of the specification laws + differential correspondence per family",
+    engine="AES", ref="5 C03")
+CLAIMED["C04"] = dict(
+    text="Proof (Lean 4): key schedule shape for 128/192/256; equivalent inverse cipher with the decryption schedule = "
+         "inverse cipher; AES inverse; CBC dec(enc) = id for all N; CBC decryption by groups of any size g with the "
+         "previous ciphertext block carried across groups = CBC decryption (the chaining-across-iterations argument). "
+         "Tie: keyexp {sse,avx}, cbc enc {x4,x8}, cbc dec {sse,avx,vaes_avx512}, public API vs Spec and OpenSSL.",
+    note=_AES_NOTE, technique="Lean 4 proof of the specification laws + differential correspondence per family",
+    engine="AES", ref="5 C04")
+
 REASON_TODO = "check not built yet in this session (work in progress, see DESIGN.md status section)"
 
 props = [json.loads(l) for l in open(os.path.join(V, "properties.jsonl"))]
@@ -94,6 +121,8 @@ m = {
         "add_only": True,
     },
     "engines": [
+        {"name": "AES", "path": "lean/IsalVerif/Spec/Aes.lean", "serves_properties": ["C02", "C03", "C04", "C07"],
+         "kind_free_text": "executable standards (FIPS-197, SP 800-38D, IEEE 1619, SP 800-38A) + GcmStream context model; harness/drv_aes.c"},
         {"name": "HashMB", "path": "lean/IsalVerif/Impl/HashMB.lean", "serves_properties": ["C01", "C06", "C11", "C15", "C20"],
          "kind_free_text": "hand-written Lean model of ctx layer + lane scheduler; correspondence harness harness/drv_hash.c"},
     ],
